@@ -51,6 +51,29 @@ def check_case(rep, drv, case, modes, rng, other=b'\x02\x01\x07'):
                         sig = 'tail-value-differs'
                 rep.fail(sig, 'decode(e + tail): %s' % (idr[:3],), dict(case.replay, kind='tail', enc=list(mode), bytes=data.hex(), tail=tail.hex()))
                 break
+            # the same one-shot call on streams holding e + tail: a seekable one (BytesIO) and one that cannot seek
+            # (wrapped by the decoder): the same value, the same tail
+            for sname, mk in (('bytesio', lambda: io.BytesIO(data + tail)), ('nonseekable', lambda: _closed_nonseekable(data + tail))):
+                try:
+                    o, rest = codec.DEC[dec_codec].decode(mk(), asn1Spec=case.schema)
+                    got = ('ok', gen.abstract(case.t, o), bytes(rest))
+                except Exception as e:  # noqa
+                    got = ('err', codec.classify(e), b'')
+                rep.count('tails-' + sname)
+                if not (got[0] == 'ok' and got[2] == tail and gen.val_equiv(case.t, got[1], ref[1])):
+                    if sname == 'nonseekable' and s4_first_item([(case, data)]) is not None:
+                        continue        # S4 region (recorded): the wrapper renumbers inside a definite-length element
+                    rep.fail('tail-not-preserved:' + sname if got[0] == 'ok' else 'tail-decode-%s:%s' % (got[1], sname),
+                             'one-shot decode of a %s stream holding e + tail: %s' % (sname, str(got[:3])[:160]),
+                             dict(case.replay, kind='tail-stream', enc=list(mode), bytes=data.hex(), tail=tail.hex(), stream=sname))
+                    break
+
+
+def _closed_nonseekable(data):
+    s = streams.GrowingStream(seekable=False)
+    s.feed(data)
+    s.close_input()
+    return s
 
 
 def check_variant_tails(rep, drv, case, rng):
